@@ -43,10 +43,13 @@ pub type StatefulExecutorRunnerGenerator = Box<dyn Fn(&Path) -> Box<dyn Runner>>
 pub struct StatefulExecutor(StatefulExecutorRunnerGenerator);
 
 /// A dataset to differentiate between occurance of global and per-execution timeout
+///
+/// The derived ordering is used to select the effective (lowest) timeout, so the
+/// duration must be the first field; the kind only breaks ties.
 #[derive(Debug, PartialEq, Eq, PartialOrd, Ord)]
 struct Timeout {
-    is_global: bool,
     timeout: Duration,
+    is_global: bool,
 }
 
 impl StatefulExecutor {
